@@ -198,4 +198,26 @@ theorem facts_browser_reads_only :
     (∀ x ∈ Facts.storeCmdSites, x.1 = "servers" → x.2.2.2.2.1 = "write" → x.2.1 = "save" ∨ x.2.1 = "remove") := by
   refine ⟨by decide, by decide, by decide, by decide, by decide, by decide⟩
 
+/-- **The UDP read loop hands a datagram to the handler only when something was read.**  This is the `none` arm of
+`UdpServer.deliver` (`Model/UdpServer.lean`: `deliver bufSize payload = none` exactly when the read returned no byte —
+`UdpServer.deliver_empty`, `deliver_nonempty`): the drivers of C04 / C05 / C06 feed the dispatcher model with
+`UdpServer.deliver …` and skip the datagram on `none`, and `C06.udp_total` / `udp_never_panics_checked` are stated for NON-EMPTY
+datagrams because `Dispatcher.Handle` indexes `payload[0]` (`udp_empty_panics`: the model on the empty payload panics).
+In `Listen` the single socket read `n, raddr, err := s.conn.ReadFromUDP(buffer)` sits in a `for {…}` loop; a failed read ends
+the loop (`fatal <- err; return`), and the single hand-over `go s.handler.Handle(ctx, s.conn, raddr, payload)` sits in the BODY
+of `if n > 0 && s.handler != nil` and under no other condition — so an empty datagram reaches no handler and does not end the
+loop.  Regenerated by go/ast on every run (`harness/internal/facts/finer_review3.go`, section `c06udpguard`; a missing `Listen`,
+read or `Handle` call fails the extraction loudly).
+*Edit detected:* the guard weakened to `s.handler != nil` or `n >= 0` (an empty datagram would panic the handler goroutine at
+`payload[0]`), the hand-over moved out of the `if` or into its `else`, a second hand-over, or a read whose error no longer ends
+the loop. -/
+theorem facts_udp_empty_read_guard :
+    Facts.udpDispatchGuards =
+      [("Listen", "go", "s.handler.Handle(ctx, s.conn, raddr, payload)", "n > 0 && s.handler != nil")] ∧
+    Facts.udpReadStmts =
+      [("Listen", "n, raddr, err := s.conn.ReadFromUDP(buffer)", "if err != nil { fatal <- err return }", "for {…}")] ∧
+    -- the model's side of the guard: nothing is delivered for an empty read, whatever the buffer size
+    (∀ n : Nat, UdpServer.deliver n [] = none) := by
+  refine ⟨by decide, by decide, UdpServer.deliver_empty⟩
+
 end Swat4.C06
